@@ -64,7 +64,7 @@ theorem lex_tiles (rules : Rules) (errLen : List Char → Nat → Nat) (h : ∀ 
   obtain ⟨ts, h1, h2, h3⟩ := lexLoop_tiles rules (errLen s) (h s) (s.length + 1) 0 s (by omega)
   refine ⟨ts, h1, h2, h3, ?_⟩
   rw [← h2]
-  simp [textOf, List.length_flatMap, Function.comp_def]
+  simp [textOf, List.length_flatMap]
 
 /-- **Token ranges tile the text on character boundaries**: the byte ranges of the tokens
 start at 0, are contiguous and non-empty, end at the byte length of the text, and every range
@@ -259,6 +259,15 @@ example : lexAll genRules (fun _ _ => 0) "a$".toList = .stuck [⟨65, "a".toList
 example : longestMatch genRules "fn".toList = .tok 32 2 ∧ longestMatch genRules "fnx".toList = .tok 65 3 ∧
     longestMatch genRules "1.5f32x".toList = .tok 66 6 ∧ longestMatch genRules "\"a".toList = .noMatch := by
   decide +kernel
+
+/-- `RuleMatches` (the hypothesis of `valid_tokens_maximal`) is inhabited: at `fnx ` the literal `fn`
+matches 2 scalars and the identifier pattern matches 3 — the token is the longer one -/
+example : RuleMatches genRules "fnx ".toList 2 ∧ RuleMatches genRules "fnx ".toList 3 ∧
+    longestMatch genRules "fnx ".toList = .tok 65 3 := by
+  refine ⟨.inl ⟨(32, "fn".toList), by decide +kernel, by decide +kernel, by decide +kernel, by decide +kernel⟩, .inr ?_,
+    by decide +kernel⟩
+  refine ⟨genRules.regexes[0]'(by decide +kernel), List.getElem_mem _, by decide, by decide +kernel, ?_⟩
+  exact (Re.longest_sound _ _ 3 (by decide +kernel)).2
 
 /-- tokens ` #fn é//` and the events of `file` for an attributed item (forward parent from the
 attribute list, index 1, to the `FN` opened at index 4), with an `Error` event -/
